@@ -172,6 +172,46 @@ impl Engine for NetEngine {
             }
         }
 
+        // ---- C19 (end-to-end leg): Client::builder().with_timeout(d) against slow handlers
+        if p == "C19" {
+            if let Some(d) = case.timeout_ms {
+                let d = d as u64;
+                for (id, spec) in case.reqs.iter().enumerate() {
+                    let (outcome, t) = obs.client.get(&id).cloned().unwrap_or((ClientOutcome::Pending, 0));
+                    let deadline = spec.start as u64 + d;
+                    let desc = format!("request #{id} started {} ms with timeout {d} ms (deadline {deadline} ms, handler delay {} ms): {outcome:?} at {t} ms", spec.start, spec.handler_delay);
+                    match &outcome {
+                        ClientOutcome::Pending => rep.violate("C19/e2e-never-resolves", desc),
+                        ClientOutcome::Err(e) if e.contains("request timeout") => {
+                            if t != deadline {
+                                rep.violate("C19/e2e-timeout-not-at-deadline", desc);
+                            }
+                            rep.class("e2e-request-timed-out");
+                        }
+                        ClientOutcome::Ok { .. } => {
+                            // the timeout covers the response head; the body is read afterwards
+                            if let Some((sig, msg)) = judge_request(case, &obs, id) {
+                                rep.violate(format!("C19/e2e-inner-result-altered/{sig}"), msg);
+                            }
+                            rep.class("e2e-request-completed");
+                        }
+                        ClientOutcome::Err(e) => {
+                            if !e.contains("pool closed, no connection can be made") {
+                                rep.violate("C19/e2e-unexpected-error", desc);
+                            }
+                        }
+                        ClientOutcome::BodyErr(_) | ClientOutcome::Cancelled => {}
+                    }
+                }
+                for (s, out) in &obs.probes {
+                    if !matches!(out, ClientOutcome::Ok { .. }) {
+                        rep.violate("C19/e2e-probe-failed-after-timeouts", format!("server s{s} did not serve a fresh client after the timed-out requests: {out:?}"));
+                    }
+                }
+                rep.nontrivial = rep.classes.contains(&"e2e-request-timed-out");
+            }
+        }
+
         // ---- C09
         if p == "C09" {
             for s in 0..nsrv {
@@ -293,6 +333,23 @@ pub fn c07_strategy(max_reqs: usize) -> impl Strategy<Value = NetCase> {
             buf,
             timeout_ms: None,
         }})
+    })
+}
+
+pub fn c19_strategy(max_reqs: usize) -> impl Strategy<Value = NetCase> {
+    (servers_strategy(), env_strategy(), prop_oneof![Just(0u16), Just(5u16), Just(15u16), Just(40u16)]).prop_flat_map(move |(servers, (pool, connect_delay, latency, buf), timeout)| {
+        let n = servers.len() as u8;
+        proptest::collection::vec(req_strategy(n, false, false), 1..=max_reqs).prop_map(move |reqs| NetCase {
+            servers: servers.clone(),
+            reqs,
+            faults: vec![],
+            shutdown: None,
+            pool: pool.clone(),
+            connect_delay,
+            latency,
+            buf,
+            timeout_ms: Some(timeout),
+        })
     })
 }
 
